@@ -104,12 +104,13 @@ def optArg {β : Type} (toks : List String) (key : String) (f : String → Optio
   | none => some dflt
   | some v => f v
 
-/-- the constructor (`ctor=params|ridge|lasso`) followed by the setters that are present in the line -/
+/-- the constructor (`ctor=params|ridge|lasso|default`) followed by the setters that are present in the line -/
 def parseParams (cd : Codec α) (toks : List String) : Option (EnetParams α) := do
   let p0 ← match (arg toks "ctor").getD "params" with
     | "params" => some (EnetParams.new cd.tol0)
     | "ridge" => some (EnetParams.ridge cd.tol0)
     | "lasso" => some (EnetParams.lasso cd.tol0)
+    | "default" => some (EnetParams.default cd.tol0)
     | _ => none
   let pen ← optArg toks "pen" cd.parse p0.penalty
   let l1r ← optArg toks "l1r" cd.parse p0.l1Ratio
@@ -188,7 +189,7 @@ def bcdSafe (cd : Codec α) (contig : Bool) (t : Nat) (thr denAdd : α) (C : Lis
     Nat → Nat → List (List α) → List (List α) → Bool
   | 0, _, _, _ => true
   | fuel + 1, steps, w, r =>
-    let st := bcdSweepGo contig t cd.eps thr denAdd 0 C norms { w := w, r := r, wMax := 0, dwMax := 0 }
+    let st := bcdSweepGo contig t thr denAdd 0 C norms { w := w, r := r, wMax := 0, dwMax := 0 }
     let steps' := steps + 1
     let forced := steps' == maxSteps - 1
     let a := decide (absS st.wMax ≤ cd.eps)
